@@ -234,7 +234,7 @@ def run_shard(tier, seed, shard, nshards, res):
             cl = [0, 1, 2, 10][(shard // 4 + i) % 4] if pol != 'none' else gen.pick(rng, [1, 10])
             if rng.random() < 0.7 and cl == 0:
                 cl = gen.pick(rng, [1, 2, 10])
-            limit = gen.pick(rng, [48, 100, 200, 400]) * 1024
+            limit = gen.pick(rng, [48, 100, 200, 400, 0 if rng.random() < 0.3 else 64]) * 1024
             if kind == 'fanout':
                 limit = gen.pick(rng, [160, 240, 400]) * 1024
             cfg = {'eviction_policy': pol, 'cull_limit': cl, 'size_limit': limit, 'disk_min_file_size': T,
